@@ -68,7 +68,7 @@ Definition check_C05 (c : atsp_case) : Z := check_trace (E:=ATSP) (c_inst c) 1 (
 Definition verdict_codes (i : atsp_inst) (acts : list nat) (verdict : bool) : Z :=
   if atsp_feasibleb i acts && negb verdict then 14
   else if negb (atsp_feasibleb i acts) && verdict then 15
-  else if negb (Bool.eqb (atsp_checker acts) verdict) then 13
+  else if negb (Bool.eqb (atsp_checker i acts) verdict) then 13
   else 0.
 Definition check_C06 (c : atsp_case) : Z :=
   if negb (c_complete c) then 0 else verdict_codes (c_inst c) (trace_actions (c_trace c)) (c_checker c).
